@@ -177,7 +177,11 @@ def run(rep, tier, seed):
     # exact-family subdivision; it speaks about the implementation's output wherever the two outputs are identical
     cert_idx = [i for i, (c, st) in enumerate(meta) if st == 's' and c.family in EXACT]
     cert_out = engine.run_lines(engine.MODEL, ['planar' + lines[i][len('subdiv'):] for i in cert_idx], timeout=1800)
-    cert = {i: engine.payload(o).strip() if o.startswith('planar') else '?' for i, o in zip(cert_idx, cert_out)}
+    cert, ccov = {}, {}
+    for i, o in zip(cert_idx, cert_out):
+        tk = engine.payload(o).split() if o.startswith('planar') else []
+        cert[i] = tk[0] if len(tk) == 2 else '?'
+        ccov[i] = tk[1] if len(tk) == 2 else '?'
     fails = []
     known = 0
     nontriv = set()
@@ -197,7 +201,9 @@ def run(rep, tier, seed):
             bad = judge_subdiv(c, evs, exact, c.op in 'UX')
             if cert.get(i) == '0' and impl[i] == model[i]:
                 bad.append('the verified planarity certificate (Cert13.planar_check) rejects the subdivision')
-            elif cert.get(i) == '?':
+            if ccov.get(i) == '0' and impl[i] == model[i]:
+                bad.append('the verified coverage certificate (Cert13Cover.cover_check) rejects the subdivision')
+            if cert.get(i) == '?':
                 bad.append('the model did not evaluate the planarity certificate')
             if len(evs) > 2 * len(input_edges(c.lhs) + input_edges(c.rhs)):
                 nontriv.add(lines[i])
@@ -221,6 +227,8 @@ def run(rep, tier, seed):
     cov['planarity_certificates'] = {'evaluated': len(cert), 'accepted': sum(1 for v in cert.values() if v == '1'),
                                      'rejected': sum(1 for v in cert.values() if v == '0'),
                                      'sweep_did_not_return': sum(1 for v in cert.values() if v == '-')}
+    cov['coverage_certificates'] = {'evaluated': sum(1 for v in ccov.values() if v in '01'), 'accepted': sum(1 for v in ccov.values() if v == '1'),
+                                    'rejected': sum(1 for v in ccov.values() if v == '0')}
     cov['trusted_base'] = c01.TRUSTED + ['planarity: the Coq-verified certificate Cert13.planar_check on the model run (proved sound), doubled by exact rational Python code on the implementation output; coverage reference is exact rational Python code']
     rep.log('%d stage runs: %d failing, %d known, %d model mismatches' % (len(lines), len(fails), known, len(mism)))
     if fails:
